@@ -194,3 +194,42 @@ Proof.
   - intros i j Hi Hj. unfold block_diag_mat. rewrite get_mk by assumption. reflexivity.
   - apply block_diag_pd, H.
 Qed.
+
+(* ------------------------------------------------------------------ any solver meeting its residual contract returns the solution *)
+Lemma Qabs_sumn_le n f g : (forall i, (i < n)%nat -> Qabs (f i) <= g i) -> Qabs (sumn n f) <= sumn n g.
+Proof.
+  induction n as [|n IH]; intro H; cbn [sumn]; [apply Qabs_case; intros; lra|].
+  eapply Qle_trans; [apply Qabs_triangle|]. apply Qplus_le_compat; [apply IH; intros; apply H; lia|apply H; lia].
+Qed.
+
+(* x - z = B (A x - b) when B is the inverse of A and A z = b *)
+Lemma error_from_residual n A B b z x i :
+  finv n A B -> (forall k, (k < n)%nat -> fmv n A z k == b k) -> (i < n)%nat ->
+  x i - z i == sumn n (fun j => B i j * (fmv n A x j - b j)).
+Proof.
+  intros HB Hz Hi.
+  rewrite (finv_unique_solution n A B (fmv n A x) x HB (fun k _ => Qeq_refl _) i Hi).
+  rewrite (finv_unique_solution n A B b z HB Hz i Hi).
+  unfold fmv at 1 3. rewrite <- sumn_sub. apply sumn_ext. intros; ring.
+Qed.
+
+(* a solver that leaves a residual of at most rho on every component, whatever its initial guess, returns the solution within
+   rho x (absolute row sum of the inverse); two runs from two guesses differ by at most twice that *)
+Lemma solution_independent_of_guess n A B b z (solver : fvec -> fvec) rho :
+  finv n A B -> (forall k, (k < n)%nat -> fmv n A z k == b k) ->
+  (forall guess k, (k < n)%nat -> Qabs (fmv n A (solver guess) k - b k) <= rho) ->
+  forall g1 g2 i, (i < n)%nat ->
+    Qabs (solver g1 i - z i) <= rho * sumn n (fun j => Qabs (B i j)) /\
+    Qabs (solver g1 i - solver g2 i) <= 2 * rho * sumn n (fun j => Qabs (B i j)).
+Proof.
+  intros HB Hz Hs g1 g2 i Hi.
+  assert (G : forall g, Qabs (solver g i - z i) <= rho * sumn n (fun j => Qabs (B i j))).
+  { intro g. rewrite (error_from_residual n A B b z (solver g) i HB Hz Hi).
+    eapply Qle_trans; [apply (Qabs_sumn_le n _ (fun j => Qabs (B i j) * rho))|].
+    - intros j Hj. rewrite Qabs_Qmult. pose proof (Qabs_nonneg (B i j)). pose proof (Hs g j Hj).
+      pose proof (Qabs_nonneg (fmv n A (solver g) j - b j)). nra.
+    - rewrite (sumn_scal_r n rho (fun j => Qabs (B i j))). rewrite Qmult_comm. apply Qle_refl. }
+  split; [apply G|].
+  setoid_replace (solver g1 i - solver g2 i) with ((solver g1 i - z i) - (solver g2 i - z i)) by ring.
+  eapply Qle_trans; [apply Qabs_triangle|]. rewrite Qabs_opp. pose proof (G g1). pose proof (G g2). lra.
+Qed.
